@@ -57,7 +57,7 @@ def gen_program(rng, extended):
 
     def _script_for(fn, may_fail_terminally):
         mr, rf = prog.VARIANTS[fn]
-        retri = ["RetryError"] + list(rf)
+        retri = ["RetryError"] + list(rf) + (["LateRetry"] if prog.LATE_OK[0] else [])
         nonretri = [x for x in ("ValueError", "KeyError", "TypeError") if x not in rf]
         r = rng.random()
         if r < 0.45:
@@ -199,12 +199,27 @@ def run_retryrace(case):
     return {"violations": V[:3], "distinct": [list(d) for d in dset], "hooks": dict(hooks), "events": hooks["three_way_comparisons"], "evaluations": hooks["programs"], "sample": None}
 
 
+def prime(hooks):
+    """Once per process: a failed invocation carrying one of pynenc's own errors is stored and read back through the distributed path BEFORE the
+    late exception class of vtasks.prog exists - the order in which a long-lived client meets a lazily imported plugin's error types."""
+    from vtasks import prog
+    if prog.LATE_OK[0]:
+        return
+    program = {"id": 1, "fn": "p_r0", "v": 1, "children": [], "call": "single", "script": ["RetryError"] * 3}
+    out, _counts, _raw = run_dist("mem", program, 7, "random")
+    if out is not None and out[0] == "exc":
+        prog.LATE_OK[0] = True
+        hooks["primed_before_late_class"] += 1
+
+
 def run_case(case):
     from vtasks import prog
+    hooks0 = Counter()
+    prime(hooks0)
     if case.get("kind") == "retryrace":
         return run_retryrace(case)
     rng = random.Random(case["seed"])
-    hooks = Counter()
+    hooks = Counter(hooks0)
     V, distinct = [], []
     inconc = None
     for n in range(case["n"]):
